@@ -253,14 +253,19 @@ class workq:
         channel = job.channel
 
         alternatives = []
-        for watching, ev in self._waiters:
+        for waiter in self._waiters:
+            watching, ev = waiter
             if channel in watching or not watching:
-                alternatives.append(ev)
+                alternatives.append(waiter)
 
         heapq.heappush(self.timeoutq, (job.timeout, job))
 
         if alternatives:
-            random.choice(alternatives).set(job)
+            # a blocked puller can take exactly one job: it stops being a
+            # candidate as soon as it has been served, even before it wakes up
+            waiter = random.choice(alternatives)
+            self._waiters.remove(waiter)
+            waiter[1].set(job)
             return job.jobid
 
         try:
@@ -312,7 +317,8 @@ class workq:
             try:
                 j = ev.get()
             finally:
-                self._waiters.remove((channels, ev))
+                if (channels, ev) in self._waiters:
+                    self._waiters.remove((channels, ev))
 
         return j
 
